@@ -309,9 +309,85 @@ fn cfg_chan(c: &Cfg) -> trippy_core::verif::ChannelConfig {
     }
 }
 
+/// What a hop reports (`Hop::extensions()`, which the table columns, the hop details and the
+/// reports show) is exactly what the latest response from that distance carried: the same routers
+/// answer with extension objects for a few rounds, then without any, then with them again.
+fn state_stage(seed: u64, i: usize, cells: &[crate::scen::Cell]) -> Outcome {
+    use crate::world::{Quote};
+    use trippy_core::ProbeStatus;
+    let mut o = Outcome::default();
+    let mut r = Prng::new(seed ^ (i as u64).wrapping_mul(0x9E37_79B9_7F4A_7C15) ^ 0x57A7E14);
+    let cell = cells[i % cells.len()];
+    let mut tcfg = cell.trace_cfg();
+    let round_ms = 40u64;
+    tcfg.min_round = crate::scen::ms(round_ms);
+    tcfg.max_round = crate::scen::ms(round_ms);
+    tcfg.grace = crate::scen::ms(1);
+    tcfg.read_timeout = crate::scen::ms(1);
+    tcfg.tcp_connect_timeout = crate::scen::ms(round_ms);
+    tcfg.max_rounds = Some(12);
+    tcfg.max_ttl = 10;
+    let d = r.range(2, 7) as usize;
+    let mk = |labelled: bool, r: &mut Prng| {
+        let hops: Vec<HopSpec> = (0..d - 1)
+            .map(|h| {
+                let mut s = HopSpec::simple(crate::scen::hop_addr(cell.v6, h, 0), 300_000 + 20_000 * h as u64);
+                s.quote = Quote::Full;
+                if labelled {
+                    s.rfc4884 = Rfc4884::Compliant;
+                    s.ext = crate::scen::random_ext(r);
+                }
+                s
+            })
+            .collect();
+        let mut t = HopSpec::simple(tcfg.target, 900_000);
+        t.quote = Quote::Full;
+        Topology { hops, target: t, tcp: TcpMode::Rst }
+    };
+    let first_labelled = r.chance(1, 2);
+    let mut wcfg = crate::scen::world_cfg(mk(first_labelled, &mut r), seed ^ i as u64);
+    let (s1, s2) = (r.range(2, 4), r.range(6, 9));
+    wcfg.reroutes.push((s1 * round_ms * 1_000_000 + 13_000_000, mk(!first_labelled, &mut r)));
+    wcfg.reroutes.push((s2 * round_ms * 1_000_000 + 13_000_000, mk(first_labelled, &mut r)));
+    let site = cell.name();
+    let replay = crate::e2e::replay_of("C14", seed, i, &tcfg, &wcfg.topo);
+    let Some((_world, run)) = crate::e2e::run_guarded(&wcfg, &tcfg, true, |_| {}, &mut o, &site, &replay, &format!("state scenario {i}")) else {
+        return o;
+    };
+    let (mut with, mut without) = (0u64, 0u64);
+    for round in &run.rounds {
+        let Some(snap) = &round.snapshot else { continue };
+        for p in &round.probes {
+            let ProbeStatus::Complete(c) = p else { continue };
+            let Some(hop) = snap.hops().iter().find(|h| h.ttl() == c.ttl.0) else { continue };
+            o.hit("hop_reports_the_extensions_of_the_latest_response");
+            if c.extensions.is_some() {
+                with += 1;
+            } else {
+                without += 1;
+            }
+            if hop.extensions() != c.extensions.as_ref() {
+                o.violate(
+                    "hop_reports_the_extensions_of_the_latest_response",
+                    format!("{site}|{}", if c.extensions.is_some() { "labels-missing" } else { "stale-labels" }),
+                    format!("round {} ttl {}: the response carried {:?}, the hop reports {:?}", round.index, c.ttl.0, c.extensions, hop.extensions()),
+                    replay.clone(),
+                );
+                return o;
+            }
+        }
+    }
+    o.count("state_stage_responses_with_extensions", with);
+    o.count("state_stage_responses_without_extensions", without);
+    if with > 0 && without > 0 {
+        o.nontrivial = Some(format!("state|{site}|{d}"));
+    }
+    o
+}
+
 pub fn run(tier: Tier, seed: u64, only: Option<usize>) -> i32 {
     let mut rep = Report::new("C14", "exploration", tier, seed);
-    rep.rule = "message = ICMP time exceeded or destination unreachable (ICMPv4 and ICMPv6) built by the independent RFC 4884 / 4950 encoder: original datagram = a valid probe quoted to 28/48..1020/1232 octets, layout in {compliant (zero padded to >= 128 octets and a word boundary, length field set), legacy (exactly 128 octets, length field 0), length-only, none}, 0..8 extension objects (MPLS stacks of 0..16 entries with arbitrary label / EXP / TTL, the bottom-of-stack bit on the last entry or (one in four) on none, unknown classes with 0..32 octets); each message is decoded by the four error views, the object / label-stack iterators, Extensions::try_from and the full receive path of two real channels (extension parsing on and off, 1024 octet receive buffer); then 1..3 byte corruptions and truncations of the same message go through every view (slices inside the message, no overlap, capped iteration, no panic); the set of RFC 4884 length field values exercised is listed; end to end: the real tracer over 254-hop paths whose routers and target attach extension objects in every layout (the C02 scenario runner restricted to the cells with extension parsing on): ProbeComplete.extensions must carry what was encoded; distinct by (family, protocol, shard)".into();
+    rep.rule = "state stage: the real tracer over routers that attach extension objects for some rounds, stop, and start again (two route changes in 12 rounds): after every round Hop::extensions() of the snapshot equals what the response of that round carried; message = ICMP time exceeded or destination unreachable (ICMPv4 and ICMPv6) built by the independent RFC 4884 / 4950 encoder: original datagram = a valid probe quoted to 28/48..1020/1232 octets, layout in {compliant (zero padded to >= 128 octets and a word boundary, length field set), legacy (exactly 128 octets, length field 0), length-only, none}, 0..8 extension objects (MPLS stacks of 0..16 entries with arbitrary label / EXP / TTL, the bottom-of-stack bit on the last entry or (one in four) on none, unknown classes with 0..32 octets); each message is decoded by the four error views, the object / label-stack iterators, Extensions::try_from and the full receive path of two real channels (extension parsing on and off, 1024 octet receive buffer); then 1..3 byte corruptions and truncations of the same message go through every view (slices inside the message, no overlap, capped iteration, no panic); the set of RFC 4884 length field values exercised is listed; end to end: the real tracer over 254-hop paths whose routers and target attach extension objects in every layout (the C02 scenario runner restricted to the cells with extension parsing on): ProbeComplete.extensions must carry what was encoded; distinct by (family, protocol, shard)".into();
     rep.assumptions = vec![
         "a message without RFC 4884 structure whose original datagram field is longer than 132 octets cannot be told from the legacy 128-octet convention (RFC 4884 5.5 relies on the extension checksum, which trippy does not verify): the 'no extension reported' clause abstains there".into(),
         "messages longer than the 1024 octet receive buffer are truncated by the socket: extension equality is only judged when the whole message fits".into(),
@@ -349,6 +425,9 @@ pub fn run(tier: Tier, seed: u64, only: Option<usize>) -> i32 {
                 o.sample = None;
                 o
             });
+            // ... and in the accumulated state: routers that attach labels for some rounds and
+            // stop (MPLS ttl propagation switched off and on again)
+            rep.run_parallel(tier.pick(48, 480), |i| state_stage(seed, i, &cells));
         }
     }
     rep.finish()
